@@ -407,8 +407,8 @@ class Exec:
             r = self.fresh_int(m.group(2), "cast")
             if v[0] == "int":
                 lo, hi = INT_RANGES[m.group(2)]
-                # a value that fits the target type is preserved by the cast (wrapping otherwise: left unconstrained)
-                self.side.append(f"(=> (and (<= {int_lit(lo)} {v[1]}) (<= {v[1]} {int_lit(hi)})) (= {r[1]} {v[1]}))")
+                # `as` between integer types: two's-complement wrap into the target range (the identity on values that fit)
+                self.side.append(f"(= {r[1]} (+ (mod (- {v[1]} {int_lit(lo)}) {hi - lo + 1}) {int_lit(lo)}))")
             return r
         m = re.match(r"^(?:move|copy) .* as .* \(\w+(?:\(.*\))?\)$", rv)
         if m:
